@@ -8,3 +8,12 @@ jsonschema.validate(m, ms); print("MANIFEST ok,", len(m["checks"]), "checks,", l
 for f in sorted(glob.glob(os.path.join(ROOT, "evidence", "*.json"))):
     e = json.load(open(f)); jsonschema.validate(e, es)
     c = e["coverage"]; print(os.path.basename(f), "ok", e["tier"], c["evaluations"], c["distinct_nontrivial"], len(c["samples"]), "samples", e["wall_s"], "s")
+
+# every listed finding names a replay file that exists
+import json as _json, os as _os
+_kf = _json.load(open('/verif/known_findings.json'))
+_missing = [f['id'] for f in _kf['findings'] if not f.get('replay') or not _os.path.exists(_os.path.join('/verif', f['replay']))]
+if _missing:
+    print("FINDINGS WITHOUT REPLAY FILE:", _missing)
+    raise SystemExit(1)
+print("findings:", len(_kf['findings']), "all replay files present")
